@@ -28,8 +28,8 @@ extern "C" void harness(void)
   verif_assume(L <= H && c <= H && (c != H || H == 0));
 #endif
   M *m = new M;
-#line 200
   unsigned effects = 0;
+#line 200
   auto e = NAMED_REQUIRE_CALL(*m, f(7)).LR_SIDE_EFFECT(++effects);
 #line 300
   CM *cm = e.get();
